@@ -147,7 +147,7 @@ def run(ctx):
             continue
         ts = field_of(tokw[0].value, "total_supply")
         n_gen += 1
-        ok, why = check_genesis(p, ts, balw, BAL)
+        ok, why = check_genesis(p, ts, balw, BAL, ctx)
         ctx.ob("R01.5", key, ok, detail=why, sites=[tokw[0].site] + [e.site for e in balw],
                sample={"total_supply": show(ts)[:200], "balance_saves": [show(e.value)[:120] for e in balw]})
     ctx.floor("R01.5", "instantiate Ok-paths", n_gen, 1)
@@ -176,7 +176,7 @@ def run(ctx):
     check_ovf(ctx)
 
 
-def check_genesis(p, ts, balw, BAL):
+def check_genesis(p, ts, balw, BAL, ctx=None):
     """ts: the total_supply term saved.  Returns (ok, why)."""
     if not balw:
         # zero-iteration path: the accumulator at loop entry
@@ -230,6 +230,10 @@ def check_genesis(p, ts, balw, BAL):
                 uniq = True
             if any("BTreeSet" in n or "HashSet" in n for n in names):
                 uniq = True
+            if ctx is not None and pairwise_unique(ctx, c):
+                uniq = True
+        if not uniq and infeasible_emptiness(p, lk):
+            return True, None
         if not uniq:
             return False, "balances are created with `save` (overwrite) but no uniqueness validation (sort+dedup / set insert) " \
                           "of the account list guards the loop: a repeated address is summed twice and stored once"
@@ -247,6 +251,73 @@ def check_genesis(p, ts, balw, BAL):
     if d.nf is None or not (d.nf == step):
         return False, "balance update delta differs from accumulator step"
     return True, None
+
+
+def _strip_iter(t):
+    while t[0] == "call" and t[2] and t[1].split("::")[-1] in ("iter", "into_iter", "enumerate", "cloned", "copied", "by_ref"):
+        t = t[2][0]
+    return t
+
+
+def infeasible_emptiness(p, lk):
+    """the path took an element from the collection loop `lk` iterates although an earlier loop over the same (unmodified)
+    collection found it empty: both cannot happen in one execution, the path has nothing to answer for"""
+    def coll_and_taken(e):
+        ivars = [c[0][2][0][2] for c in p.conds if c[0][0] == "calli" and c[0][1] == "next" and c[0][2][0][0] == "loopvar" and c[0][2][0][1] == e.name]
+        if not ivars or ivars[0] not in e.value:
+            return None, False
+        took = any(c[0][0] == "calli" and c[0][1] == "next" and c[0][2][0][0] == "loopvar" and c[0][2][0][1] == e.name and c[0][2][0][3] == 0
+                   and c[1] == "Some" for c in p.conds)
+        return _strip_iter(e.value[ivars[0]]), took
+    ents = [e for e in p.effects if e.kind == "loop_enter"]
+    mine = [e for e in ents if e.name == lk]
+    if not mine:
+        return False
+    c0, took0 = coll_and_taken(mine[0])
+    if c0 is None or not took0:
+        return False
+    for e in ents:
+        if e.name == lk or p.effects.index(e) > p.effects.index(mine[0]):
+            continue
+        c1, took1 = coll_and_taken(e)
+        if c1 == c0 and not took1:
+            return True
+    return False
+
+
+def pairwise_unique(ctx, c):
+    """the decision `list[..i].iter().any(|earlier| earlier.address == list[i].address)` = false for the i-th element of an
+    enumerate() over the same list: every element is compared with all earlier ones (quadratic duplicate check)"""
+    t, o = c[0], c[1]
+    if not (t[0] == "call" and t[1].split("::")[-1] == "any" and len(t[2]) == 2 and o is False):
+        return False
+    src, clos = t[2]
+    if not (src[0] == "call" and src[1].endswith("::index") and len(src[2]) == 2 and clos[0] == "closure" and len(clos[2]) == 1):
+        return False
+    lst, rng = src[2]
+    if not (rng[0] == "struct" and rng[1].endswith("RangeTo") and dict(rng[2]).get("end") is not None):
+        return False
+    end = dict(rng[2])["end"]
+    up = clos[2][0]
+    # i and the later element are the two halves of one enumerate() item over the same list
+    later = ("field", end[1], "1") if end[0] == "field" and end[2] == "0" else None
+    whole = up == later
+    addr_only = up == ("field", later, "address")       # edition-2021 closures capture just the field they use
+    if later is None or not (whole or addr_only):
+        return False
+    e = end[1]
+    if not (e[0] == "vfield" and e[1][0] == "calli" and e[1][1] == "next"):
+        return False
+    b = ctx.engine.by_dp.get(clos[1])
+    if b is None:
+        return False
+    u = ("param", "UPVAR")
+    cps = ctx.engine.summarise(b, args=[("closure", clos[1], (u,)), ("param", "ELEM")])
+    if len(cps) != 1:
+        return False
+    r = cps[0].ret
+    want = {("field", u, "address") if whole else u, ("field", ("param", "ELEM"), "address")}
+    return r[0] == "cmp" and r[1] == "eq" and set(r[2:4]) == want
 
 
 def check_ovf(ctx):
